@@ -16,7 +16,7 @@ func init() {
 		Run:   runC14,
 		Modes: []string{"deadlock"},
 		Meta: propMeta{
-			Explanation: "Static wiring and ordering clauses of the derived reactive values on all CFG paths: (1) NewDerivedVariable1..4: every input is subscribed with the initial trigger, and in subscription i compute receives the callback's new value at position i and inputJ.Get() at every other position (sibling agreement across arities); (2) derived sets: source mutations go through the SetArithmetic collectors with the tabled direction (InheritFrom: added->Added collector, deleted->Subtracted; SubtractReactive: own source adds, the others subtract), and InheritFrom's unsubscribe both unsubscribes from the source and removes the source's elements; (3) WaitGroup: the atomic counter is raised before the first element is inserted and Done triggers only on `Delete(...) && counter.Add(-1) == 0` (decision on the read-modify-write result); (4) EvictionState: fields under its mutex, events triggered only after the lock is released, the pre-triggered event is returned exactly for slots at or below the last evicted one, lastEvictedSlot advanced on every evicting path; (5) SortedSet: slice/index/weight state under its mutex (weight callback's conditional lock tabled), swap keeps slice position and index coupled, no unsubscribe / foreign callback while holding the sorted-set mutex; (6) Counter.Monitor updates the remembered condition on exactly the paths that change the count. Also: InheritFrom tracks inherited elements per source (the tracking set is created inside the loop over the sources). A weight subscription cancelled outside the sorted-set mutex requires a membership check in the weight callback.",
+			Explanation: "Static wiring and ordering clauses of the derived reactive values on all CFG paths: (1) NewDerivedVariable1..4: every input is subscribed with the initial trigger, and in subscription i compute receives the callback's new value at position i and inputJ.Get() at every other position (sibling agreement across arities); (2) derived sets: source mutations go through the SetArithmetic collectors with the tabled direction (InheritFrom: added->Added collector, deleted->Subtracted; SubtractReactive: own source adds, the others subtract), and InheritFrom's unsubscribe both unsubscribes from the source and removes the source's elements; (3) WaitGroup: the atomic counter is raised before the first element is inserted and Done triggers only on `Delete(...) && counter.Add(-1) == 0` (decision on the read-modify-write result); (4) EvictionState: fields under its mutex, events triggered only after the lock is released, the pre-triggered event is returned exactly for slots at or below the last evicted one, lastEvictedSlot advanced on every evicting path; (5) SortedSet: slice/index/weight state under its mutex (weight callback's conditional lock tabled), swap keeps slice position and index coupled, no unsubscribe / foreign callback while holding the sorted-set mutex; (6) Counter.Monitor updates the remembered condition on exactly the paths that change the count. Also: InheritFrom tracks inherited elements per source (the tracking set is created inside the loop over the sources). A weight subscription cancelled outside the sorted-set mutex requires a membership check in the weight callback. Unsubscribing a source stops the subscription before the source's elements are removed; the per-source tracking set may be a local or a field of a per-source record; a weight callback registered with an initial trigger does not branch on its previous-value parameter.",
 			NotDecided:  "convergence after quiescence, ordering by weight over histories, deadlock freedom over interleavings beyond the listed lock facts",
 			Assumptions: []string{"reactive Variable/Set behave per C13"},
 		},
